@@ -14,7 +14,36 @@ use crate::spec::{Spec, K};
 pub struct C18;
 
 pub fn warm_len(spec: &Spec) -> usize {
-    8 * spec.window_sum() + 256
+    let mut t = 0;
+    spec.walk(&mut |s| t += s.n + m_eff(s));
+    8 * t + 256
+}
+
+/// stall length of a node that never recovers within any run (an inner view that withholds its output for
+/// ever: the views above it must then hold their footprint, not queue anything while they wait)
+pub const NEVER: usize = 1_000_000_000;
+
+/// second length parameter as far as buffers are concerned: the stub Stall buffers nothing
+fn m_eff(s: &Spec) -> usize {
+    if s.k == K::Stall && s.m >= NEVER {
+        0
+    } else {
+        s.m
+    }
+}
+
+/// replace the first Echo leaf (depth first, input slot before the moving-average slot) by a stalled one
+fn stall_for_ever(s: &mut Spec) -> bool {
+    if s.k == K::Echo {
+        *s = Spec::stall(NEVER, Spec::echo());
+        return true;
+    }
+    for k in s.kids.iter_mut() {
+        if stall_for_ever(k) {
+            return true;
+        }
+    }
+    false
 }
 
 pub struct Meas {
@@ -140,7 +169,7 @@ pub fn measure_ex(spec: &Spec, vals: &[f64], fork_at: Option<usize>, drop_orig: 
 pub fn heap_bound(spec: &Spec) -> isize {
     let mut b = 0isize;
     spec.walk(&mut |s| {
-        let w = (s.n + s.m + 2).next_power_of_two() as isize;
+        let w = (s.n + m_eff(s) + 2).next_power_of_two() as isize;
         b += 1024 + 8 * 8 * 2 * w;
     });
     b
@@ -273,6 +302,12 @@ impl Prop for C18 {
                 }
             }
         };
+        // a node that stalls for ever (6% of the runs outside the ultra-long block): everything above it waits,
+        // for hundreds of thousands of deliveries, and must not queue anything while it does
+        let mut tree = tree;
+        if !sys_ultra && r.chance(0.06) && stall_for_ever(&mut tree) {
+            sc.stat("stall_for_ever", 1);
+        }
         let positive = tree.needs_positive_feed();
         let shape = if i < nw * n_shapes { (i / nw) as u8 } else { r.below(SHAPES.len()) as u8 };
         // a third of the runs outside the systematic block use a periodic feed (where the strict oracle applies)
